@@ -199,6 +199,28 @@ theorem memstep_preserves_valid (f : Nat → O) (x x' : PMX O) (op : MemOp)
   | decomposition a => exact decomposition_valid f a x x' hv hs
   | intermolecular a => exact intermolecular_valid f a x x' hv hs
   | synthesis a => exact synthesis_valid f a x x' hv hs
+  | initBest =>
+    simp only [memStep, Out.state?, Option.some.injEq] at hs; subst hs
+    exact ⟨⟨hv.1.1, by simp, hv.1.2.2⟩, hv.2.1, hv.2.2.1, hv.2.2.2⟩
+  | initArchive =>
+    simp only [memStep, Out.state?, Option.some.injEq] at hs; subst hs
+    exact ⟨⟨hv.1.1, hv.1.2.1, by simp [AllValid]⟩, hv.2.1, hv.2.2.1, hv.2.2.2⟩
+  | initPbest =>
+    simp only [memStep, Out.state?, Option.some.injEq] at hs; subst hs
+    exact ⟨hv.1, by simp [AllValid], hv.2.2.1, hv.2.2.2⟩
+  | initGbest =>
+    simp only [memStep, Out.state?, Option.some.injEq] at hs; subst hs
+    refine ⟨hv.1, hv.2.1, ?_, hv.2.2.2⟩
+    intro g hg
+    apply hv.2.2.1 g
+    revert hg
+    cases x.gbest <;> simp
+  | initMols =>
+    simp only [memStep, Out.state?, Option.some.injEq] at hs; subst hs
+    exact ⟨hv.1, hv.2.1, hv.2.2.1, by simp [AllValid]⟩
+  | initEvals =>
+    simp only [memStep, Out.state?, Option.some.injEq] at hs; subst hs
+    exact ⟨⟨hv.1.1, hv.1.2.1, hv.1.2.2⟩, hv.2.1, hv.2.2.1, hv.2.2.2⟩
 
 /-- Hence the same holds after every sequence of such steps, however it ends (completed, or stopped by an
 `Err`). -/
